@@ -1,5 +1,3 @@
-//go:build wip_c15
-
 package kit
 
 import (
